@@ -198,6 +198,14 @@ class SimFile:
         if whence == 0:
             self.pos = off
         elif whence == 1:
+            log = self.fs.read_log
+            if off < 0 and log and log[-1][0] == self.inode.ino and log[-1][1] + log[-1][2] == self.pos:
+                # the reader gives back the tail of what it just read (an incomplete last record): un-read it
+                ino, p0, n = log[-1]
+                if n + off > 0:
+                    log[-1] = (ino, p0, n + off)
+                else:
+                    log.pop()
             self.pos += off
         elif whence == 2:
             self.pos = len(self.inode.data) + off
